@@ -30,4 +30,5 @@ const (
 	VerifPtItFirst   = 42 // Iterator.SeekFirst: head.getNext(0)
 	VerifPtItNext    = 43 // Iterator.Next: curr.getNext(0)
 	VerifPtItHelp    = 44 // Iterator.Next: helpDelete CAS
+	VerifPtInsSucc   = 45 // Insert4: succs[i].getNext(i) before an upper-level link
 )
